@@ -72,6 +72,10 @@ _g("G-HEADLESS", [("S", "A"), ("A", "a"), ("A", "Z"), ("S", "Z b"), ("A", "S")],
 _g("G-REP", [("S", "A"), ("S", "A A"), ("A", "a"), ("A", "b A"), ("S", "A S A"), ("S", "b")], note="same symbol set with different multiplicities in consecutive rules")
 _g("G-NB", [("S", "A B c"), ("A", "a"), ("A", ""), ("B", "b"), ("B", ""), ("S", "B A S")], V=("a", "b", "c"),
    note="rule of length three whose first two symbols are both nullable (binarisation folds exactly that pair)")
+_g("G-2CYC", [("S", "T"), ("T", "S"), ("A", "A"), ("T", "A"), ("A", "a"), ("S", "b"), ("A", "S a")], note="two cyclic components of the unary graph (S<->T and the self-loop A->A) linked by the unary rule T->A")
+_g("G-MLR", [("S", "a A e"), ("S", "b B e"), ("A", "B x"), ("B", "A z"), ("A", "c"), ("B", "d"), ("A", "C y"), ("C", "c")],
+   V=("a", "b", "c", "d", "e", "x", "y", "z"), note="mutually left-recursive A, B with further left corners, entered from two different rules of S")
+_g("G-DIA", [("S", "A"), ("S", "B"), ("B", "A"), ("A", "a"), ("B", "b"), ("A", "a A")], note="unary diamond: A is reached from S by unary paths of different length")
 _g("G-MB", [("S", "é S"), ("S", "ab"), ("S", "€ T"), ("T", "𝄞"), ("T", "x"), ("S", "é")],
    V=("é", "ab", "€", "𝄞", "x"), note="multi-character and multi-byte terminals")
 
@@ -118,8 +122,10 @@ _a("A-CYC", [(0, "a", 1), (0, "a", 2), (1, "b", 0), (2, "b", 0), (0, "c", 3)], i
    note="cyclic but determinisable: both branches return to state 0 (residuals renormalise to the same subset)")
 _a("A-MB", [(0, "é", 1), (0, "è", 1), (0, "a", 1), (1, "€", 2), (1, "₭", 2), (2, "𝄞", 0), (1, EPS, 2), ("a", "é", "b"), (0, "é", 2), (1, "℃", 0)],
    init=[0, "a"], final=[2, "b"], note="1-4 byte labels with shared byte prefixes, state names equal to symbols")
-_a("A-MB4", [(0, "€", 1), (0, "℃", 1), (0, "日", 2), (0, "本", 2), (1, "x", 3), (2, "y", 3), (0, "₭", 2)], init=[0], final=[3],
+_a("A-MB4", [(0, "€", 1), (0, "℃", 1), (0, "日", 2), (0, "本", 2), (1, "x", 3), (2, "y", 3), (0, "₭", 2), (0, "ア", 3)], init=[0], final=[3],
    note="3-byte characters sharing the lead byte but differing in the middle byte (e2 82 ac / e2 84 83; e6 97 a5 / e6 9c ac)")
+_a("A-NUL", [(0, "\x00", 1), (1, "a", 2), (0, "a", 2), (1, "é", 0), (2, EPS, 0)], init=[0], final=[2], note="alphabet contains U+0000 (byte 0 is falsy)")
+_a("A-ISO", [(0, "a", 1), (1, "b", 2), (0, "a", 3)], init=[0, 5], final=[2, 5], note="an isolated state that is both initial and final (accepts the empty string), plus a dead state 3")
 _a("A-MB2", [("p0", "é", "p1"), ("p0", "a", "p1"), ("p1", "x", "p2")], init=["p0"], final=["p2"], note="terminal A: é|a then x")
 _a("A-MB3", [("r0", "ü", "r1"), ("r1", "y", "r2")], init=["r0"], final=["r2"], note="terminal B: ü then y")
 _a("A-S1", [(0, "a", 1), (1, "b", 0), (0, EPS, 1)], init=[0], final=[1], note="small cycle")
@@ -155,6 +161,7 @@ _t("T-G4", [(0, ("c", "e"), 0), (0, ("d", E_), 0)], init=[0], final=[0], note="1
 
 _t("T-F5", [(0, (E_, E_), 0), (0, ("a", "c"), 0), (0, ("b", "d"), 1), (1, (E_, E_), 1), (1, ("a", E_), 0)], init=[0], final=[0, 1],
    note="eps:eps self-loops on the initial state and on a final state")
+_t("T-F6", [(0, ("a", "c"), 1), (2, ("a", "d"), 1), (1, ("b", E_), 1), (2, (E_, "c"), 0)], init=[0, 2], final=[1], note="two initial states in the FIRST operand")
 _t("T-R1", [(0, ("c", "a"), 1), (0, (E_, "a"), 1), (1, ("d", "b"), 1), (1, ("c", E_), 2), (1, (E_, E_), 2), (0, ("d", "b"), 2)],
    init=[0], final=[2, 1], note="output alphabet {a,b}: grammar on the output side")
 
